@@ -12,7 +12,7 @@ RULE = ('Cases = generated scene (layered, exact_counts, split_candidate, merge_
         'heights moved to the floating-point neighbour of their value so bases sit on either side of x00 / x000 ft) '
         'x BASE_LVL_HEIGHT_PERC in [0,100] (ints and floats) x BASE_LVL_LOOKBACK_PERC in (0,100] x '
         'EXCLUDE_FOR_BASE_HEIGHT_CALC (none / some / all / absent names) x LOWESS frac/it x MAX_HITS_OKTA0 x MSA. '
-        'Oracle per row of the three tables: base within the base-height model interval (own percentile over the '
+        'Plus two enumerations: the pure function utils.calc_base_height for every n <= 400 (thorough 1200) x look-back 0.5..100 by 0.5, and pipeline runs on a single rising deck for every (n <= 120 / 300, integer p) with n*p a multiple of 100. Oracle per row of the three tables: base within the base-height model interval (own percentile over the '
         'most recent floor(n*lookback/100) member hits after the exclusion filter with fall-back; interval only '
         'when dt ties straddle the look-back cut; rel. tol 1e-9) and min <= base <= max; min / max / mean / '
         'thickness / sample-std recomputed from the member hits (rel 1e-9); fluffiness finite and >= 0; code digits '
@@ -31,12 +31,73 @@ WEIGHTS = {'layered': 8, 'exact_counts': 3, 'split_candidate': 3, 'merge_chain':
 
 @st.composite
 def strategy_(draw):
-    case = draw(S.pipeline_case(WEIGHTS, vary=('msa', 'okta', 'sep', 'base', 'lowess'), p_default_prms=0.05, base_p_default=0.05))
+    case = draw(S.pipeline_case(WEIGHTS, vary=('msa', 'okta', 'sep', 'base', 'lowess'), p_default_prms=0.05, base_p_default=0.05,
+                                anomalies=True, anomaly_negative=False))
     return draw(S.ulp_jitter(case))
 
 
 def strategy(tier):
     return strategy_()
+
+
+GRID_N = {'quick': 120, 'thorough': 300}
+FUNC_N = {'quick': 400, 'thorough': 1200}
+
+
+def jobs(tier, seed):
+    out = [{'name': f'lookback-grid-{i}', 'what': 'grid', 'part': i, 'parts': 8, 'nmax': GRID_N[tier]} for i in range(8)]
+    out += [{'name': f'calc-base-height-{i}', 'what': 'func', 'part': i, 'parts': 8, 'nmax': FUNC_N[tier]}
+            for i in range(8)]
+    return out
+
+
+def run_job(job, ctx):
+    nmax = job['nmax']
+    if job['what'] == 'grid':
+        # pipeline runs on a single rising deck of n hits for every integer look-back p with n*p/100 an
+        # integer (where a rounded product would lose a hit)
+        pairs = [(n, p) for n in range(2, nmax + 1) for p in range(1, 100) if (n * p) % 100 == 0]
+        for n, p in pairs[job['part']::job['parts']]:
+            rows = [['a', -900.0 + 900.0 * i / n, 1000.0 + 3.0 * i + (i * 7) % 5, 1] for i in range(n)]
+            case = {'cls': 'lookback_grid', 'rows': rows,
+                    'prms': {'BASE_LVL_LOOKBACK_PERC': p, 'BASE_LVL_HEIGHT_PERC': (0, 5, 50)[(n + p) % 3],
+                             'SLICING_PRMS': {'distance_threshold': 2}}}
+            ctx.record(case, check(case))
+        if job['part'] == 0:
+            ctx.stats.exhaustive.append(f'single rising deck of n hits x every integer look-back p with n*p a multiple of '
+                                        f'100, 2 <= n <= {nmax} (pipeline runs)')
+        return
+    # function level: utils.calc_base_height against the model for every n <= nmax and p in 0.5 .. 100 by 0.5
+    import numpy as np
+    from ampycloud.utils import utils
+    bad = None
+    for n in range(1 + job['part'], nmax + 1, job['parts']):
+        vals = [1000.0 + 2.5 * i + (i * 11) % 7 for i in range(n)]
+        arr = np.array(vals)
+        mem = [(float(i), v) for i, v in enumerate(vals)]
+        for p2 in range(1, 201):
+            p = p2 / 2 if p2 % 2 else p2 // 2
+            perc = (0, 5, 37.5, 50, 100)[(n + p2) % 5]
+            got = float(utils.calc_base_height(arr, p, perc))
+            lo, hi, k, _ = oracles.base_interval(mem, p, perc)
+            ctx.stats.cases += 1
+            ctx.stats.evaluations += 1
+            if not (lo - 1e-9 * max(1, abs(lo)) <= got <= hi + 1e-9 * max(1, abs(hi))):
+                bad = (n, p, perc, got, lo, hi, k)
+                res = Result()
+                res.fail('percentile', 'calc_base_height differs from the look-back percentile model',
+                         f'n={n} lookback={p} perc={perc} got={got!r} model=[{lo!r}, {hi!r}] k={k}')
+                rows = [['a', float(i), v, 1] for i, v in enumerate(vals)]
+                ctx.stats.cases -= 1
+                ctx.stats.evaluations -= 1
+                ctx.record({'cls': 'lookback_grid', 'rows': rows,
+                            'prms': {'BASE_LVL_LOOKBACK_PERC': p, 'BASE_LVL_HEIGHT_PERC': perc,
+                                     'SLICING_PRMS': {'distance_threshold': 2}}}, res)
+        ctx.stats.distinct_extra += 200
+    ctx.stats.labels['calc_base_height(n,p)'] += 1
+    if job['part'] == 0:
+        ctx.stats.exhaustive.append(f'utils.calc_base_height on rising arrays of n <= {nmax} values x look-back 0.5..100 '
+                                    'by 0.5 against the percentile model')
 
 
 def close(a, b, tol=1e-9):
